@@ -21,9 +21,9 @@ import (
 )
 
 type pegFacts struct {
-	g        *peg.Grammar
-	nullMemo map[*peg.Expr]int
-	identCont func(r rune) bool
+	g          *peg.Grammar
+	nullMemo   map[*peg.Expr]int
+	identCont  func(r rune) bool
 	identStart func(r rune) bool
 }
 
